@@ -376,7 +376,8 @@ class SimKernel(object):
         c = Child(pid, name)
         prog = self.programs.get(name, {})
         c.dies_on = None if prog.get('dies_on', 'any') == 'any' else {signal.SIGKILL}
-        ps = self.pipes_since_fork
+        # pipes left over from an earlier spawn whose fork() or pipe() failed have been closed again: not this child's
+        ps = [p for p in self.pipes_since_fork if p.rfds or p.wfds]
         self.pipes_since_fork = []
         if len(ps) >= 2:
             c.stdin, c.stdout = ps[0], ps[1]
@@ -392,14 +393,14 @@ class SimKernel(object):
         self.fault('waitpid')
         if self.zombie_order:
             z = self.zombie_order.pop(0)
-            c = self.children.get(z)
+            c = self.children.get(z) if z not in self.foreign else None
             if c is not None:
                 c.state = 'reaped'
                 sts = c.status
                 self._child_gone(c)
             else:
                 sts = self.foreign.pop(z)
-            self.rec('wait', pid=z, sts=sts)
+            self.rec('wait', pid=z, sts=sts, foreign=c is None)
             return z, sts
         if not any(c.state == 'alive' for c in self.children.values()):
             self.rec('wait', pid=None, errno=errno.ECHILD)
@@ -516,14 +517,19 @@ class SimKernel(object):
                         p = c.stdout if a[2] == 'stdout' else c.stderr
                         if p is not None:
                             p.buf += a[3]
+                            self.rec('childwrite', name=c.name, pid=c.pid, chan=a[2], data=bytes(a[3]), pipe=p.id)
                         break
             elif k == 'sig':
                 self.options.signal_receiver.receive(a[1], None)
             elif k == 'rpc':
                 self.rpcdisp.queue.append((a[1], a[2], a[3]))
             elif k == 'foreign':
-                self.foreign = dict(self.foreign); self.foreign[a[1]] = a[2] << 8
-                self.zombie_order.append(a[1])
+                # a pid supervisord does not (any longer) know: never one of its live or unreaped children
+                c = self.children.get(a[1])
+                if (c is None and a[1] < self.next_pid or c is not None and c.state == 'reaped' or a[1] >= 9000) and a[1] not in self.foreign:
+                    self.children.pop(a[1], None)
+                    self.foreign = dict(self.foreign); self.foreign[a[1]] = a[2] << 8
+                    self.zombie_order.append(a[1])
             elif k == 'fault':
                 self.faults[a[1]] = [a[2], a[3] if len(a) > 3 else 1]
             elif k == 'missing':
